@@ -204,6 +204,7 @@ def run(ctx, rep):
     wal_rules.r02b(ctx, rep, ['RaftWal'])
     wal_rules.r02e(ctx, rep, ['RaftWal'])
     wal_rules.r02f(ctx, rep, ['RaftWal'])
+    wal_rules.r02g(ctx, rep, ['RaftWal'])
     r10b_candidates(ctx, rep)
     if ctx.tier == 'thorough':
         witness.run(rep, 'R01a', ['RaftPersistentStateIsPrivate', 'RaftWalWriterIsPrivate'])
